@@ -880,6 +880,29 @@ func confirmAndMinimise(b *built, m *meta.Check, prop, tier string, f *found) (*
 				class = eo.viol.Class
 			}
 		}
+		// a crash under concurrent dispatch (race report, panic that needs two goroutines of one step to meet) may
+		// recur in only a few percent of the executions of its seed: re-execute in parallel, any crash counts
+		if eo.viol == nil && f.crash {
+			for round := 0; round < 4 && eo.viol == nil; round++ {
+				par := runtime.NumCPU()
+				outs := make([]*evalOut, par)
+				var wg sync.WaitGroup
+				for i := 0; i < par; i++ {
+					wg.Add(1)
+					go func(i int) {
+						defer wg.Done()
+						outs[i] = evalSpec(b, m, RunSpec{Property: prop, Seed: f.seed, Index: f.index, Tier: tier}, "", true)
+					}(i)
+				}
+				wg.Wait()
+				for _, o := range outs {
+					if o.viol != nil && (eo.viol == nil || o.viol.Class == f.viol.Class) {
+						eo = o
+						class = o.viol.Class
+					}
+				}
+			}
+		}
 		if eo.viol == nil {
 			return nil, false
 		}
